@@ -217,4 +217,16 @@ func c04(p *model.Prog, r *report.Result) {
 	r.Check(bad == nil, "C04.ERR", fkey(runLoop, "dispose", "every-path"), p.Pos(runLoop.Pos()), "the connection is disposed on every exit of RunLoop", "RunLoop can return without disposing the connection")
 	c04Writer(p, r)
 	c04Buf(p, r)
+	r.Rule("C04.NILF", "fields that lal itself compares with nil somewhere are, in every function of the RTMP server surface, dereferenced only behind the non-nil edge of a test of the same field expression or a dominating non-nil store; reviewed exceptions are listed per (function, field)")
+	{
+		var scope []*ssa.Function
+		for f := range reachAll {
+			if model.IsLal(f) && inScopeFile(f) {
+				scope = append(scope, f)
+			}
+		}
+		nilFieldRule(p, r, "C04.NILF", scope, c04NilExceptions, 10, 0)
+	}
 }
+
+var c04NilExceptions = []nilFieldException{}
